@@ -83,6 +83,9 @@ type jDec struct {
 	// ReOK: the accepted resource, marshaled again, carries the attribute as the same JSON value
 	// (the same number, the same string, the same instant, null for null); true when there is no resource
 	ReOK bool `json:"remarshal_ok"`
+	// Again: the value handed out is the caller's own - written over through the pointer a nullable kind
+	// gives, it leaves the next decoding of the same literal what the first one was (true when not tried)
+	Again bool `json:"again_same"`
 }
 
 type decEvent struct {
@@ -199,7 +202,7 @@ func runDecodeCase(c decCase) decEvent {
 		err error
 	)
 	var back jsonapi.Resource
-	p, _ := catch(func() {
+	decode := func() {
 		if c.Via == "attr" {
 			v, err = attr.UnmarshalToType([]byte(c.Lit.Text))
 			return
@@ -222,7 +225,8 @@ func runDecodeCase(c decCase) decEvent {
 		} else if res != nil {
 			v = res
 		}
-	})
+	}
+	p, _ := catch(decode)
 	switch {
 	case p:
 		ev.R = jDec{Out: "panic", N: jInt{T: 3}}
@@ -231,7 +235,21 @@ func runDecodeCase(c decCase) decEvent {
 	default:
 		ev.R = observeDecoded(c.Kind, c.Null, c.Lit, v)
 	}
-	ev.R.ReOK = true
+	ev.R.ReOK, ev.R.Again = true, true
+	if rv := reflect.ValueOf(v); ev.R.Out == "accept" && v != nil && rv.Kind() == reflect.Ptr && !rv.IsNil() && rv.Elem().Kind() != reflect.Slice {
+		first := ev.R
+		scribble(rv.Elem())
+		p2, _ := catch(decode) // (the resource marshaled below is this second, untouched one)
+		o2 := jDec{}
+		if !p2 && err == nil {
+			o2 = observeDecoded(c.Kind, c.Null, c.Lit, v)
+			o2.ReOK, o2.Again = true, true
+		}
+		if o2 != first {
+			ev.R.Again = false
+			back = nil
+		}
+	}
 	if ev.R.Out == "accept" && back != nil {
 		catch(func() {
 			var ske struct {
@@ -242,6 +260,29 @@ func runDecodeCase(c decCase) decEvent {
 		})
 	}
 	return ev
+}
+
+// scribble writes another value into a variable of one of the attribute kinds.
+func scribble(e reflect.Value) {
+	z := reflect.Zero(e.Type())
+	if !reflect.DeepEqual(e.Interface(), z.Interface()) {
+		e.Set(z)
+		return
+	}
+	switch e.Kind() {
+	case reflect.Bool:
+		e.SetBool(true)
+	case reflect.Int, reflect.Int8, reflect.Int16, reflect.Int32, reflect.Int64:
+		e.SetInt(1)
+	case reflect.Uint, reflect.Uint8, reflect.Uint16, reflect.Uint32, reflect.Uint64:
+		e.SetUint(1)
+	case reflect.String:
+		e.SetString("x")
+	case reflect.Struct:
+		if _, ok := e.Interface().(time.Time); ok {
+			e.Set(reflect.ValueOf(time.Unix(1, 0).UTC()))
+		}
+	}
 }
 
 // sameJSONValue: the same number (whatever its spelling), the same string - or, for two strings that
